@@ -274,10 +274,7 @@ def r14_5(ctx):
     prog = ctx.prog
     f = prog.own_method("Stage", "add_alg")
     apps = [c for c in walk_no_nested(f.node) if is_call_to(c, "append", "self._alg")]
-    ok = len(apps) == 1 and Norm(None).poly(apps[0].args[0]) == Poly.atom(f.params[1]) * Poly.atom("scale", -1)
-    sc = ctx.scope(f)
-    d = [x for x in sc.defs.get("scale", []) if x.kind == "assign"]
-    ok = ok and len(d) == 1 and ast.unparse(d[0].value) == "self._parse_scale(%s, %s)" % (f.params[1], f.params[2])
+    ok = len(apps) == 1 and ctx.norm(f).poly(apps[0].args[0]) == expected("%s/self._parse_scale(%s, %s)" % (f.params[1], f.params[1], f.params[2]))
     ctx.check(ok, "Stage.add_alg divides the whole residual by its scale", detail="algebraic residual scaling", expected="self._alg.append(constr/scale)", found="; ".join(ast.unparse(a) for a in apps), fi=f)
     g = prog.own_method("Stage", "set_der")
     from ..model import nested_functions
